@@ -26,11 +26,19 @@ func WithResolvedDatabase(dbStream io.Reader, pc parser.Config, rc resolver.Conf
 	}
 }
 
+// FlushReporter flushes r and reports a failed flush through err unless an earlier
+// error is already pending. Use it deferred: defer FlushReporter(r, &err)
+func FlushReporter(r interface{ Flush() error }, err *error) {
+	if flushErr := r.Flush(); *err == nil {
+		*err = flushErr
+	}
+}
+
 func WalkWithReporter(logStream, dbStream io.Reader, dateFormat string, pc parser.Config, rc resolver.Config, rpc reporter.Config, fc filter.Config, rpCb ReporterCallback) error {
 	return WithResolvedDatabase(dbStream, pc, rc,
-		func(nl shared.DBNodeMap) error {
+		func(nl shared.DBNodeMap) (err error) {
 			r := rpCb(rpc, nl)
-			defer r.Flush()
+			defer FlushReporter(r, &err)
 			f := filter.GetIntervalNodeFilter(fc)
 			return WalkNodesInStream(logStream, dateFormat, pc, f, r)
 		})
